@@ -48,6 +48,8 @@ type loopInfo struct {
 }
 
 type Frame struct {
+	blockChans []string // channels of the blocking operation whose "site block" conditions are being evaluated
+
 	vc       *VC
 	p        *Program
 	fn       *ssa.Function
@@ -80,6 +82,7 @@ type Frame struct {
 	acqState map[string]*State
 	lastAcq  *State
 	priv     []privCell
+	frozen   []privCell // cells of captured variables nobody writes while this closure runs
 }
 
 type iterInfo struct {
@@ -139,7 +142,11 @@ func (f *Frame) analyzeLoops() {
 		headers = append(headers, h)
 	}
 	sort.Slice(headers, func(i, j int) bool {
-		return f.blockPos(f.loops[headers[i]].header) < f.blockPos(f.loops[headers[j]].header)
+		pi, pj := f.blockPos(f.loops[headers[i]].header), f.blockPos(f.loops[headers[j]].header)
+		if pi != pj {
+			return pi < pj
+		}
+		return headers[i] < headers[j]
 	})
 	for ord, h := range headers {
 		li := f.loops[h]
